@@ -32,6 +32,15 @@ def inst(name, expr, kind, nmax, props, family, meta=None, memsafe=True, unwind_
     props = {p: t for p, t in props.items() if t is not None}
     if cost is None:
         cost = (nmax + 1) * (12 if KINDS[kind]["double"] else 3)
+    if mem == 3:
+        # measured peaks of cbmc (GB): min-max heap steps 2-6 from n = 4, larger heaps more
+        dbl = KINDS[kind]["double"]
+        if nmax >= 15:
+            mem = 16 if dbl else 8
+        elif nmax >= 8:
+            mem = 10 if dbl else 5
+        elif nmax >= 4 and dbl:
+            mem = 6
     INSTANCES.append(dict(
         name=name, expr=expr, kind=kind, nmax=nmax, props=props, family=family,
         meta=meta or {}, memsafe=memsafe, unwind_min=unwind_min, cost=cost, mem=mem,
